@@ -222,7 +222,11 @@ def tlc(spec_dir, module, cfg, work, tag, workers=16, extra=None, env=None, time
 
 def tlc_stats(out):
     """(generated, distinct) from TLC's final line"""
-    m = re.findall(r"(\d[\d,]*) states generated, (\d[\d,]*) distinct states found", out)
+    # only TLC's own short lines: on megabytes of printed behaviours (long runs of digits and commas) this pattern is quadratic
+    m = []
+    for ln in out.splitlines():
+        if "states generated" in ln and len(ln) < 400:
+            m += re.findall(r"(\d[\d,]*) states generated, (\d[\d,]*) distinct states found", ln)
     if not m:
         return 0, 0
     g, d = m[-1]
